@@ -98,6 +98,8 @@ def run(case):
     out.cls("version=%d" % case["version"], "rebalancing=%s" % case["rebalancing"], "boundary=%s" % case["boundary"], "d=%d" % case["dim"])
     if case.get("legs"):
         out.cls("history-cut-into-%d-runs" % min(len(case["legs"]) + 1, 4))
+    if case.get("rerun"):
+        out.cls("second-run-on-the-same-solver-object")
     out.info = dict(max_steps=st_["steps"], max_sparse_grid_points=st_["maxpts"], max_lmax=max(sa.lmax))
     return out
 
